@@ -11,7 +11,7 @@ Require Import Fggs.Model.PTensorOps.
 Require Import Fggs.Proofs.PTensor_bcast Fggs.Proofs.PTensor_bcast_inv Fggs.Proofs.PTensor_bcast_thm Fggs.Proofs.PTensor_bcast_xval.
 Require Import Fggs.Proofs.Axis_clone Fggs.Proofs.PTensor_struct Fggs.Proofs.PTensor_getitem Fggs.Proofs.PTensor_reprinv.
 Require Import Fggs.Proofs.PTensor_storage Fggs.Proofs.PTEqual_freshen.
-Require Import Fggs.Model.PTensorOpsCheck Fggs.Proofs.Axis_subst Fggs.Proofs.PTensor_reshape Fggs.Proofs.PTensor_any.
+Require Import Fggs.Model.PTensorOpsCheck Fggs.Proofs.Axis_subst Fggs.Proofs.PTensor_reshape Fggs.Proofs.PTensor_any Fggs.Proofs.PTensor_d2d.
 Local Open Scope nat_scope.
 
 (** * L2: the axis algebra *)
@@ -482,6 +482,19 @@ Theorem C06_any_empty_dim_refuted :
             denote bool r [2] = true /\ existsb (fun i => denote bool t [i; 2]) (seq 0 (numel (Phys 1 0))) = false.
 Proof. exact any_empty_dim_refuted. Qed.
 Print Assumptions C06_any_empty_dim_refuted.
+
+(** * dim_to_dense(dim): the same dense tensor, well formed, and dimension [dim] is [unitAxis] or a physical axis
+    that occurs in no other dimension ([dense_dim]).  Covers the early return and the general path ([freshen] of
+    the other dimensions from the empty rename dict, [new_full], strided [copy_] through the low-level [project]).
+    Guard: a size-1 dimension is [unitAxis] (the [squeeze_(-1)] branch needs F24's one-element sum types). *)
+Theorem C06_dim_to_dense : forall (V : Type) dim next (t r : ptensor V) nx ed,
+  wf V t -> vars_below V next t -> nth_error (vaxes t) dim = Some ed ->
+  (is_unit ed = true \/ numel ed <> 1) ->
+  pt_dim_to_dense V dim next t = Ok (r, nx) ->
+  wf V r /\ shape V r = shape V t /\ default r = default t /\ dense_dim V r dim /\
+  forall idx, in_bounds (shape V t) idx -> denote V r idx = denote V t idx.
+Proof. exact dim_to_dense_refines. Qed.
+Print Assumptions C06_dim_to_dense.
 
 (** * reshape / view
 
